@@ -746,6 +746,10 @@ class Sample:
                 muts[pos, op].append(
                     (mean(mq for mq, _ in items), mean(q for _, q in items))
                 )
+                # The phase record shows the merged substitution as well
+                for p in range(len(l)):
+                    if l[p] != "." and pos + p in phase:
+                        phase[pos + p] = op if p == 0 else "_"
 
         if self._indel_sites_eqs:  # long-read hack
             for pos, op in self._indel_sites:
